@@ -74,6 +74,10 @@ def cells(tier):
     for (n_rc, n_rd, n_other) in ((1, 1, 0), (1, 1, 1), (1, 0, 1)):
         for allow in (False, True):
             out.append(mk(n_rc, n_rd, n_other, allow, False, T=T, structured=True))
+    # the constructor itself, given a list of readers that the caller uses for a second collection
+    for (n_rc, n_rd, n_other) in ((1, 1, 1), (1, 0, 2), (2, 1, 0), (0, 1, 1), (1, 2, 0)):
+        for allow in (False, True):
+            out.append(mk(n_rc, n_rd, n_other, allow, False, source='readers', T=T))
     # the same string / path / key listed twice counts twice
     for src in ('string', 'file', 's3'):
         for (n_rc, n_rd, n_other), rep in (((1, 1, 0), 0), ((1, 1, 0), 1), ((1, 1, 1), 1), ((1, 0, 1), 0)):
